@@ -327,6 +327,30 @@ Proof.
     exists (ext0 ++ ext1). rewrite Y4, X4, app_assoc. reflexivity.
 Qed.
 
+(* exactly how the histories change while the local inputs are registered: the history of a handle in
+   [touched] may get that handle's pending input appended - after [k] copies of the blank input when
+   it is the player's very first input (the input delay) *)
+Definition hist_step (d : Z) (pending : list (Z * pinput)) (touched : list Z) (gs gs' : list ghost) : Prop :=
+  forall h0 gh', nth_error gs' h0 = Some gh' -> exists gh, nth_error gs h0 = Some gh /\
+    (fst gh' = fst gh \/
+     (In (Z.of_nat h0) touched /\ exists pi k, assoc_get pending (Z.of_nat h0) = Some pi /\
+        fst gh' = fst gh ++ repeat 0 k ++ [pi_val pi] /\ ((fst gh = [] /\ k = Z.to_nat d) \/ k = 0%nat))).
+Lemma hist_step_refl : forall d pend t gs, hist_step d pend t gs gs.
+Proof. intros d pend t gs h0 gh' H. exists gh'. split; [exact H|left; reflexivity]. Qed.
+Lemma hist_step_cons : forall d pend h r gs gs1 gs',
+  hist_step d pend [h] gs gs1 -> hist_step d pend r gs1 gs' -> ~ In h r -> hist_step d pend (h :: r) gs gs'.
+Proof.
+  intros d pend h r gs gs1 gs' H1 H2 Hn h0 gh' A.
+  destruct (H2 h0 gh' A) as (gh1 & A1 & B1). destruct (H1 h0 gh1 A1) as (gh & A0 & B0).
+  exists gh. split; [exact A0|].
+  destruct B1 as [B1|(I1 & pi & k & X1 & X2 & X3)].
+  - rewrite B1. destruct B0 as [B0|(I0 & Y)]; [left; exact B0|right; split; [|exact Y]].
+    destruct I0 as [<-|[]]. left. reflexivity.
+  - destruct B0 as [B0|([I0|[]] & _)].
+    + right. split; [right; exact I1|]. exists pi, k. rewrite <- B0. split; [exact X1|]. split; [exact X2|exact X3].
+    + exfalso. apply Hn. rewrite I0. exact I1.
+Qed.
+
 (* the part of an iteration after the sync layer accepted the input for frame c + d *)
 Lemma register_tail : forall w d p gs h v r q q' hist hist' low,
   QS w d p gs -> all_clean (s_queues (ps_sync p)) ->
@@ -336,7 +360,9 @@ Lemma register_tail : forall w d p gs h v r q q' hist hist' low,
   RInv q' hist' low -> q_delay q' = q_delay q -> q_last_user q' = s_current (ps_sync p) ->
   q_last_requested q' = q_last_requested q -> q_first_incorrect q' = q_first_incorrect q -> q_pred q' = q_pred q ->
   hlen hist' = s_current (ps_sync p) + d + 1 -> hlen hist <= hlen hist' ->
-  s_current (ps_sync p) <= hlen hist -> (exists ext, hist' = hist ++ ext) ->
+  s_current (ps_sync p) <= hlen hist ->
+  forall (pi : pinput) (kf : nat), assoc_get (ps_pending p) h = Some pi -> v = pi_val pi ->
+  hist' = hist ++ repeat 0 kf ++ [v] -> ((hist = [] /\ kf = Z.to_nat d) \/ kf = 0%nat) ->
   let p1 := with_sync p (with_queues (ps_sync p) (updz (s_queues (ps_sync p)) (Z.to_nat h) q')) in
   let actual := s_current (ps_sync p) + d in
   exists p' gs',
@@ -349,9 +375,10 @@ Lemma register_tail : forall w d p gs h v r q q' hist hist' low,
     Done (s_current (ps_sync p)) d (s_queues (ps_sync p')) gs' h /\
     (forall h', h' <> h -> 0 <= h' -> Done (s_current (ps_sync p)) d (s_queues (ps_sync p)) gs h' ->
                 Done (s_current (ps_sync p)) d (s_queues (ps_sync p')) gs' h') /\
-    grows_all (s_current (ps_sync p)) (s_queues (ps_sync p)) gs (s_queues (ps_sync p')) gs'.
+    grows_all (s_current (ps_sync p)) (s_queues (ps_sync p)) gs (s_queues (ps_sync p')) gs' /\
+    hist_step d (ps_pending p) [h] gs gs'.
 Proof.
-  intros w d p gs h v r q q' hist hist' low HQS Hcl Hh Hk Eq Eg Hpn Hfq I' D' U' R' F' P' Hlen' Hle Hreach Hext p1 actual.
+  intros w d p gs h v r q q' hist hist' low HQS Hcl Hh Hk Eq Eg Hpn Hfq I' D' U' R' F' P' Hlen' Hle Hreach pi kf Hpi Hv Hext Hkk p1 actual.
   pose proof HQS as [Hw Hd Hmode Hn Hconn Hgos HQ Hlast Hfr Hkinds Hpe].
   set (c := s_current (ps_sync p)) in *. set (L := s_last_confirmed (ps_sync p)) in *.
   pose proof (QsI_length _ _ _ _ HQ) as Hlq.
@@ -413,7 +440,7 @@ Proof.
   split.
   { rewrite O4, HpA. subst pA p1. unfold p_rest. cbn. repeat split. }
   split; [rewrite Hs4; reflexivity|]. split; [rewrite Hs4; reflexivity|].
-  split; [|split].
+  split; [|split; [|split]].
   - intros q0 gh0 B C. rewrite Hs4 in B. cbn [with_queues s_queues] in B. subst gs'.
     rewrite nth_error_updz_same in B by lia. rewrite nth_error_updz_same in C by lia.
     injection B as <-. injection C as <-. cbn [fst]. split; [exact Hlen'|exact U'].
@@ -425,9 +452,14 @@ Proof.
     destruct (Nat.eq_dec (Z.to_nat h) h0) as [Eh|Eh].
     + subst h0. rewrite nth_error_updz_same in B by lia. rewrite nth_error_updz_same in C by lia.
       injection B as <-. injection C as <-. exists q, (hist, low). split; [exact Eq|]. split; [exact Eg|].
-      cbn [fst]. split; [exact F'|]. split; [exact P'|]. right. repeat split; assumption.
+      cbn [fst]. split; [exact F'|]. split; [exact P'|]. right. split; [exact Hreach|]. split; [exact Hpn|]. split; [exact Hfq|]. eexists. exact Hext.
     + rewrite nth_error_updz_other in B by exact Eh. rewrite nth_error_updz_other in C by exact Eh.
       exists q0, gh0. split; [exact B|]. split; [exact C|]. split; [reflexivity|]. split; [reflexivity|left; reflexivity].
+  - intros h0 gh0 C. subst gs'.
+    destruct (Nat.eq_dec (Z.to_nat h) h0) as [Eh|Eh].
+    + subst h0. rewrite nth_error_updz_same in C by lia. injection C as <-. exists (hist, low). split; [exact Eg|].
+      right. split; [left; lia|]. exists pi, kf. rewrite Z2Nat.id by lia. cbn [fst]. split; [exact Hpi|]. split; [rewrite <- Hv; exact Hext|exact Hkk].
+    + rewrite nth_error_updz_other in C by exact Eh. exists gh0. split; [exact C|left; reflexivity].
 Qed.
 
 (* one iteration of register_local_inputs for a local handle with a pending input *)
@@ -441,7 +473,8 @@ Lemma register_step : forall w d p gs h pi r,
     Done (s_current (ps_sync p)) d (s_queues (ps_sync p')) gs' h /\
     (forall h', h' <> h -> 0 <= h' -> Done (s_current (ps_sync p)) d (s_queues (ps_sync p)) gs h' ->
                 Done (s_current (ps_sync p)) d (s_queues (ps_sync p')) gs' h') /\
-    grows_all (s_current (ps_sync p)) (s_queues (ps_sync p)) gs (s_queues (ps_sync p')) gs'.
+    grows_all (s_current (ps_sync p)) (s_queues (ps_sync p)) gs (s_queues (ps_sync p')) gs' /\
+    hist_step d (ps_pending p) [h] gs gs'.
 Proof.
   intros w d p gs h pi r HQS Hcl Hh Hk Hpend.
   pose proof HQS as [Hw Hd Hmode Hn Hconn Hgos HQ Hlast Hfr Hkinds Hpe].
@@ -475,7 +508,15 @@ Proof.
     destruct Hadd as (q' & Ea & I' & D' & U' & R' & F' & P'); [unfold hlen; cbn; lia|unfold hlen; cbn; lia|].
     rewrite Ea. cbn [res_bind]. rewrite Hdel.
     assert ((c + d =? NULL) = false) as -> by (unfold NULL; lia).
-    eapply register_tail; try eassumption; fold c; rewrite ?hlen_fill; try (eexists; reflexivity); unfold hlen in *; cbn [length] in *; lia.
+    assert (Hx : [] ++ repeat (hlast []) (Z.to_nat (c + q_delay q - hlen [])) ++ [pi_val pi] = [] ++ repeat 0 (Z.to_nat d) ++ [pi_val pi]).
+    { rewrite Hcz, Hdel. unfold hlen, hlast. cbn [length Z.of_nat last]. replace (0 + d - 0) with d by lia. reflexivity. }
+    rewrite Hx in I'.
+    apply (register_tail w d p gs h (pi_val pi) r q q' [] ([] ++ repeat 0 (Z.to_nat d) ++ [pi_val pi]) 0 HQS Hcl Hh Hk Eq Eg Hpn Hfq I' D'
+             ltac:(fold c; exact U') R' F' P'
+             ltac:(fold c; rewrite hlen_fill; unfold hlen; cbn [length]; lia)
+             ltac:(rewrite hlen_fill; unfold hlen; cbn [length]; lia)
+             ltac:(fold c; unfold hlen; cbn [length]; lia)
+             pi (Z.to_nat d) Hpend eq_refl eq_refl (or_introl (conj eq_refl eq_refl))).
   - (* the queue is exactly up to date: the input goes to frame c + d *)
     assert (Hs : q_last_user q = NULL \/ c = q_last_user q + 1) by (right; lia).
     destruct (add_input_ok q hist low c (pi_val pi) I Hpn ltac:(lia) Hs Hc0) as [_ Hadd].
@@ -484,7 +525,15 @@ Proof.
     destruct Hadd as (q' & Ea & I' & D' & U' & R' & F' & P'); [lia|lia|].
     rewrite Ea. cbn [res_bind]. rewrite Hdel.
     assert ((c + d =? NULL) = false) as -> by (unfold NULL; lia).
-    eapply register_tail; try eassumption; fold c; rewrite ?hlen_fill; try (eexists; reflexivity); unfold hlen in *; lia.
+    assert (Hx : hist ++ repeat (hlast hist) (Z.to_nat (c + q_delay q - hlen hist)) ++ [pi_val pi] = hist ++ repeat 0 0 ++ [pi_val pi]).
+    { rewrite Hdel, Hhl2. replace (c + d - (c + d)) with 0 by lia. reflexivity. }
+    rewrite Hx in I'.
+    apply (register_tail w d p gs h (pi_val pi) r q q' hist (hist ++ repeat 0 0 ++ [pi_val pi]) low HQS Hcl Hh Hk Eq Eg Hpn Hfq I' D'
+             ltac:(fold c; exact U') R' F' P'
+             ltac:(fold c; rewrite hlen_fill; cbn [Z.of_nat]; lia)
+             ltac:(rewrite hlen_fill; lia)
+             ltac:(fold c; lia)
+             pi 0%nat Hpend eq_refl eq_refl (or_intror eq_refl)).
   - (* the input for this frame was registered by an earlier call that stalled: dropped *)
     unfold add_input. rewrite Hlu.
     assert ((negb (c =? NULL) && negb (c =? c + 1)) = true) as -> by (unfold NULL; lia).
@@ -494,38 +543,41 @@ Proof.
     split; [reflexivity|]. split; [reflexivity|]. split; [|split].
     + intros q0 gh0 B C. rewrite Eq in B. rewrite Eg in C. injection B as <-. injection C as <-. cbn [fst]. split; assumption.
     + intros h' _ _ Hdone. exact Hdone.
-    + apply grows_all_refl.
+    + split; [apply grows_all_refl|apply hist_step_refl].
 Qed.
 
 Lemma register_go_progress : forall hs w d p gs,
-  QS w d p gs -> all_clean (s_queues (ps_sync p)) ->
+  QS w d p gs -> all_clean (s_queues (ps_sync p)) -> NoDup hs ->
   Forall (fun h => 0 <= h /\ nth_error (ps_kinds p) (Z.to_nat h) = Some KLocal /\
                    exists pi, assoc_get (ps_pending p) h = Some pi) hs ->
   exists p' gs', register_go p hs = Ok p' /\ QS w d p' gs' /\ all_clean (s_queues (ps_sync p')) /\ p_rest p p' /\
     s_current (ps_sync p') = s_current (ps_sync p) /\ s_last_confirmed (ps_sync p') = s_last_confirmed (ps_sync p) /\
     (forall h, 0 <= h -> In h hs \/ Done (s_current (ps_sync p)) d (s_queues (ps_sync p)) gs h ->
                Done (s_current (ps_sync p)) d (s_queues (ps_sync p')) gs' h) /\
-    grows_all (s_current (ps_sync p)) (s_queues (ps_sync p)) gs (s_queues (ps_sync p')) gs'.
+    grows_all (s_current (ps_sync p)) (s_queues (ps_sync p)) gs (s_queues (ps_sync p')) gs' /\
+    hist_step d (ps_pending p) hs gs gs'.
 Proof.
-  induction hs as [|h r IH]; intros w d p gs HQS Hcl Hall.
+  induction hs as [|h r IH]; intros w d p gs HQS Hcl Hnd Hall.
   - exists p, gs. cbn [register_go]. split; [reflexivity|]. split; [exact HQS|]. split; [exact Hcl|].
-    split; [apply p_rest_refl|]. split; [reflexivity|]. split; [reflexivity|]. split; [|apply grows_all_refl].
+    split; [apply p_rest_refl|]. split; [reflexivity|]. split; [reflexivity|]. split; [|split; [apply grows_all_refl|apply hist_step_refl]].
     intros h _ [[]|H]. exact H.
-  - inversion Hall as [|? ? (Hh & Hk & pi & Hpe) Hall']; subst.
-    destruct (register_step w d p gs h pi r HQS Hcl Hh Hk Hpe) as (p1 & gs1 & E1 & HQ1 & Hcl1 & Hr1 & Hc1 & HL1 & Hd1 & Ht1 & Hg1).
+  - inversion Hall as [|? ? (Hh & Hk & pi & Hpe) Hall']; subst. inversion Hnd as [|? ? Hnin Hnd']; subst.
+    destruct (register_step w d p gs h pi r HQS Hcl Hh Hk Hpe) as (p1 & gs1 & E1 & HQ1 & Hcl1 & Hr1 & Hc1 & HL1 & Hd1 & Ht1 & Hg1 & Hh1).
     rewrite E1.
+    assert (Hpend1 : ps_pending p1 = ps_pending p) by (destruct Hr1 as (_ & _ & _ & _ & _ & _ & _ & _ & _ & Hp1); exact Hp1).
     assert (Hall1 : Forall (fun h => 0 <= h /\ nth_error (ps_kinds p1) (Z.to_nat h) = Some KLocal /\
                                      exists pi, assoc_get (ps_pending p1) h = Some pi) r).
     { destruct Hr1 as (_ & _ & _ & _ & _ & Hk1 & _ & _ & _ & Hp1). rewrite Hk1, Hp1. exact Hall'. }
-    destruct (IH w d p1 gs1 HQ1 Hcl1 Hall1) as (p' & gs' & E & HQ' & Hcl' & Hr' & Hc' & HL' & Hd' & Hg').
+    destruct (IH w d p1 gs1 HQ1 Hcl1 Hnd' Hall1) as (p' & gs' & E & HQ' & Hcl' & Hr' & Hc' & HL' & Hd' & Hg' & Hh').
     exists p', gs'. split; [exact E|]. split; [exact HQ'|]. split; [exact Hcl'|].
     split; [eapply p_rest_trans; eassumption|]. split; [congruence|]. split; [congruence|].
-    split; [|rewrite Hc1 in Hg'; eapply grows_all_trans; eassumption].
-    intros h0 Hh0 Hin. rewrite Hc1 in Hd'.
-    destruct (Z.eq_dec h0 h) as [->|Hne].
-    + apply Hd'; [exact Hh0|]. right. exact Hd1.
-    + apply Hd'; [exact Hh0|]. destruct Hin as [[->|Hin]|Hdone]; [congruence|left; exact Hin|].
-      right. apply Ht1; assumption.
+    split; [|split; [rewrite Hc1 in Hg'; eapply grows_all_trans; eassumption|]].
+    + intros h0 Hh0 Hin. rewrite Hc1 in Hd'.
+      destruct (Z.eq_dec h0 h) as [->|Hne].
+      * apply Hd'; [exact Hh0|]. right. exact Hd1.
+      * apply Hd'; [exact Hh0|]. destruct Hin as [[->|Hin]|Hdone]; [congruence|left; exact Hin|].
+        right. apply Ht1; assumption.
+    + rewrite Hpend1 in Hh'. eapply hist_step_cons; eassumption.
 Qed.
 
 (* ---------- moving the invariant across a change of the sync layer ---------- *)
@@ -599,6 +651,14 @@ Proof.
   - intros (Hr & Hk). split; [lia|]. assert ((h <? 0) = false) as -> by lia. assert ((h <? ps_nplayers p) = true) as -> by lia.
     rewrite Hk. reflexivity.
 Qed.
+
+Lemma zrange_nodup : forall n a, NoDup (zrange_from a n).
+Proof.
+  induction n as [|n IH]; intros a; cbn [zrange_from]; constructor; [|apply IH].
+  rewrite zrange_in. lia.
+Qed.
+Lemma local_handles_nodup : forall p, NoDup (local_handles p).
+Proof. intros p. unfold local_handles. apply NoDup_filter. apply zrange_nodup. Qed.
 
 Lemma QS_nplayers : forall w d p gs, QS w d p gs -> ps_nplayers p = Z.of_nat (length (ps_kinds p)).
 Proof. intros w d p gs H. destruct (qs_n _ _ _ _ H) as (A & _ & B & _). lia. Qed.
@@ -743,7 +803,7 @@ Proof.
                                    exists pi, assoc_get (ps_pending p3) h = Some pi) (local_handles p3)).
   { apply Forall_forall. intros h Hin. pose proof Hin as Hin2. apply (local_handles_spec p3 h Hnp3) in Hin2.
     destruct Hin2 as (Hr & Hk). split; [lia|]. split; [exact Hk|]. apply Hpend. exact Hin. }
-  destruct (register_go_progress (local_handles p3) w d p3 gs3 HQS3 Hcl3 Hall)
+  destruct (register_go_progress (local_handles p3) w d p3 gs3 HQS3 Hcl3 (local_handles_nodup p3) Hall)
     as (p4 & gs4 & E4 & HQS4 & Hcl4 & Hrest4 & Hc4 & HL4 & Hdone4 & _).
   unfold register_local_inputs. rewrite E4. cbn [res_bind].
   destruct (send_ready_outgoing_ok p4 o1) as (p5 & o5 & E5 & O5). rewrite E5. cbn [res_bind].
